@@ -87,6 +87,24 @@ def run(tier):
                 sc = delta.Scenario(cid, wd, B, T, sources=[c[1] for c in combo], rounds=0, final=False,
                                     name="B%d target %s, sources %s" % (bi, tn, "+".join(c[0] for c in combo)))
                 sc.write_files(); scs.append(sc)
+    # crafted target index: a 32-byte checksum whose first 16 bytes are the (16-byte) checksum of a same-sized chunk
+    # of a source that uses the shorter chunk hash type - a prefix is not a match
+    for comp in (0, 2):
+        ch = [b""] + [corpus.text(rnd, n) for n in (120, 60, 200)]
+        S = ref.build_file(ch, comp_type=comp, hash_type=1, chunk_hash_type=3, level=3)[0]
+        Bc = ref.build_file(ch, comp_type=comp, hash_type=1, chunk_hash_type=1, level=3)[0]
+        hS = ref.parse_header(S); hB = ref.parse_header(Bc)
+        ents = [dict(e) for e in hB.entries]
+        body = bytearray(Bc[hB.hdr_total:])
+        for i in (1, 3):
+            ents[i]["digest"] = hS.entries[i]["digest"] + corpus.rand(rnd, 16)
+            a = ents[i]["start"]; body[a:a + ents[i]["clen"]] = corpus.rand(rnd, ents[i]["clen"])
+        Bcraft = ref.rebuild_from_parse(hB, Bc, entries=ents)[:hB.hdr_total + 0]
+        Bcraft = ref.build_header(hash_type=hB.hash_type, chunk_hash_type=1, flags=hB.flags, comp_type=hB.comp_type, entries=ents, data_digest=hB.data_digest) + bytes(body)
+        for tn, T in (("empty", b""), ("zeros", bytes(len(Bcraft)))):
+            sc = delta.Scenario("c%d" % len(scs), wd, Bcraft, T, sources=[S], rounds=0, final=False,
+                                name="crafted target (32-byte checksums extending a source's 16-byte ones, comp %d), target %s" % (comp, tn))
+            sc.write_files(); scs.append(sc)
     nproc = 12
     parts = ["".join(s.script() for s in scs[i::nproc]) for i in range(nproc)]
     evs = [e for part in common.run_driver_parallel(parts, "plain", timeout=2400) for e in part]
